@@ -24,10 +24,24 @@ pub fn observe(rec: &mut Recorder, w: &mut World, u: &Universe, refs: &RefStore,
         let want = enc_lists(&refs.getf(s, k, idx, &vals));
         if check_spec && got != want { rec.fail("view-filtered-get", format!("get_filtered_policy({},{},{},{:?}) = {} but the set gives {}", s, k, idx, vals, got, want)); }
     }
+    // membership is exact: a prefix of a stored rule, or a rule with an empty field where a stored one has a value, is not
+    // "had" (has_* is not a filter) — asked of every definition, through all spellings of the call
+    let mut asks: Vec<(&str, &str, Vec<String>)> = vec![];
     for r in [&u.p_rules[0], &u.p_rules[3]] {
-        let got = rec.exec(w, &format!("e.has\tp\tp\t{}", enc_list(r)));
-        let want = refs.sets[&("p".to_string(), "p".to_string())].contains(r);
-        if check_spec && got != bool_s(want) { rec.fail("view-has", format!("has_policy({:?}) = {} but membership is {}", r, got, want)); }
+        asks.push(("p", "p", r.clone()));
+        asks.push(("p", "p", r[..r.len() - 1].to_vec()));
+        asks.push(("p", "p", r[..1].to_vec()));
+        let mut e = r.clone(); e[1] = String::new(); asks.push(("p", "p", e));
+        asks.push(("p", "p2", r.clone()));
+        asks.push(("p", "p2", r[..2].to_vec()));
+    }
+    for (s, k) in [("g", "g"), ("g", "g2")] {
+        if let Some(r) = refs.sets[&(s.to_string(), k.to_string())].iter().next().cloned() { asks.push((s, k, r[..1].to_vec())); asks.push((s, k, r.clone())); let mut e = r.clone(); e[0] = String::new(); asks.push((s, k, e)); }
+    }
+    for (s, k, r) in asks {
+        let got = rec.exec(w, &format!("e.has\t{}\t{}\t{}", s, k, enc_list(&r)));
+        let want = refs.sets[&(s.to_string(), k.to_string())].contains(&r);
+        if check_spec && got != bool_s(want) { rec.fail("view-has", format!("has_policy({},{},{:?}) = {} but membership is {}", s, k, r, got, want)); }
     }
     for (s, k, idx) in [("p", "p", 0usize), ("p", "p", 1), ("p", "p", 2), ("g", "g", 1)] {
         let got = rec.exec(w, &format!("e.vals\t{}\t{}\t{}", s, k, idx));
